@@ -144,6 +144,10 @@ class Server(object):
                 ex = sys.exc_info()[1]
                 if get_exc_errno(ex) in (errno.EINTR, errno.EAGAIN):
                     pass
+                elif get_exc_errno(ex) in (errno.EMFILE, errno.ENFILE, errno.ENOBUFS, errno.ENOMEM, errno.ECONNABORTED, errno.EPROTO):
+                    # out of descriptors or memory, or the peer gave up before we got to it: the listener itself is fine.
+                    # let the connections being served finish instead of shutting the server down
+                    time.sleep(0.05)
                 else:
                     raise EOFError()
             else:
